@@ -206,6 +206,12 @@ SURFACE_STMTS = [
     ("spaceship", "PS(a, b);"), ("spaceship-rev", "PS(b, a);"), ("spaceship-eq", "PS(a, au::meters(R(7)));"), ("spaceship-mixed-unit", "PS(a, f);"),
     ("spaceship-mixed-rep", "PS(a, au::meters(7.5));"), ("spaceship-mixed-both", "PS(au::feet(23.5), a);"),
     ("spaceship-pt", "PS(au::celsius_pt(R(20)), au::celsius_pt(R(5)));"), ("spaceship-pt-mixed", "PS(au::celsius_pt(R(20)), au::kelvins_pt(R(300)));"),
+    # the same comparisons written the way portable user code writes them: operator<=> where the language has it, the relational
+    # operators otherwise -- such a program must be accepted/rejected alike and print the same under all six configurations
+    ("ssfb", "PSF(a, b);"), ("ssfb-mixed-unit", "PSF(a, f);"), ("ssfb-mixed-both", "PSF(au::feet(23.5), a);"),
+    ("ssfb-pt", "PSF(au::celsius_pt(R(20)), au::celsius_pt(R(5)));"), ("ssfb-pt-mixed", "PSF(au::celsius_pt(R(20)), au::kelvins_pt(R(100)));"),
+    ("ssfb-pt-mixed-rev", "PSF(au::kelvins_pt(R(100)), au::celsius_pt(R(20)));"), ("ssfb-pt-mixed-F", "PSF(au::fahrenheit_pt(R(50)), au::celsius_pt(R(20)));"),
+    ("ssfb-pt-mixed-dbl", "PSF(au::celsius_pt(20.25), au::kelvins_pt(R(100)));"), ("ssfb-pt-milli", "PSF(au::milli(au::kelvins_pt)(R(5)), au::celsius_pt(R(-100)));"),
 ]
 ONLY20 = lambda name: name.startswith("spaceship")
 # statements whose value does not depend on <cmath> / streams and that Au declares constexpr: evaluated in a constant expression too
@@ -259,6 +265,11 @@ template <typename U, typename R> void pq(const char *tag, au::Quantity<U, R> q)
 #define P(x) c20::pq(TAG, (x))
 #define PR(x) c20::praw(TAG, (x))
 #define PB(x) std::printf("%s bool %d\n", TAG, (int)(x))
+#if defined(__cpp_impl_three_way_comparison) && __cpp_impl_three_way_comparison >= 201907L
+#define PSF(x, y) { const auto s_ = ((x) <=> (y)); std::printf("%s order %d%d%d\n", TAG, (int)(s_ < 0), (int)(s_ == 0), (int)(s_ > 0)); }
+#else
+#define PSF(x, y) { std::printf("%s order %d%d%d\n", TAG, (int)((x) < (y)), (int)((x) == (y)), (int)((x) > (y))); }
+#endif
 #if defined(__cpp_impl_three_way_comparison)
 #define PS(x, y) { const auto s_ = ((x) <=> (y)); std::printf("%s spaceship %d%d%d relational %d%d%d\n", TAG, (int)(s_ < 0), (int)(s_ == 0), (int)(s_ > 0), (int)((x) < (y)), (int)((x) == (y)), (int)((x) > (y))); }
 #endif
